@@ -233,8 +233,18 @@ func check(c Case) (string, string, bool) {
 				os.WriteFile(filepath.Join(d, "a-unrelated.pem"), pki.PEM(unrelated.Cert), 0o644)
 				os.WriteFile(filepath.Join(d, "more", "root.pem"), pki.PEM(chain.Root().Cert), 0o644)
 			case strings.Contains(content, "E"):
+				// a file that is not a certificate, next to good certificate files where the content has
+				// other letters; for a store that also holds the signer's root the broken entry has a
+				// dot name (an editor's or a version-control tool's leftover is an entry like any other)
 				os.MkdirAll(d, 0o755)
-				os.WriteFile(filepath.Join(d, "broken.pem"), []byte("this is not a certificate"), 0o644)
+				broken := "broken.pem"
+				if strings.Contains(content, "r") {
+					broken = ".broken.pem"
+				}
+				os.WriteFile(filepath.Join(d, broken), []byte("this is not a certificate"), 0o644)
+				for i, cert := range certsFor(strings.ReplaceAll(content, "E", "")) {
+					os.WriteFile(filepath.Join(d, fmt.Sprintf("good%d.pem", i)), pki.PEM(cert), 0o644)
+				}
 			case strings.Contains(content, "l"):
 				// one bundle file: the other certificates first, the CA-issued leaf last
 				os.MkdirAll(d, 0o755)
